@@ -416,6 +416,9 @@ def get_loader(config, task_loader=None, cmds=None):
             loader_name = global_config['loader']
             plugins = PluginDict()
             plugins.add_plugins(config, 'LOADER')
+            if loader_name not in plugins:
+                msg = "No loader plugin named '{}'."
+                raise InvalidCommand(msg.format(loader_name))
             loader = plugins.get_plugin(loader_name)()
 
     if not loader:
